@@ -38,6 +38,11 @@ func genC16(r *Rand, tier string) *Case {
 			for y := r.Intn(3); y > 0; y-- {
 				ops = append(ops, Op{K: "yield"})
 			}
+			if len(ops) > 0 && r.Chance(1, 6) {
+				// a handler that is busy for a while (simulated time) after its first
+				// yield: however long it takes, Close waits for it
+				ops = append(ops, Op{K: "sleep", Ms: r.PickInt(100, 6000, 31000, 61000, 3600000)})
+			}
 			ops = append(ops, Op{K: "row", Row: []Val{{G: "int32", I: int64(q)}}}, Op{K: "complete", Tag: "SELECT 1"})
 			if r.Chance(1, 5) {
 				ops = append(ops, Op{K: "yield"})
@@ -105,6 +110,11 @@ func genC16(r *Rand, tier string) *Case {
 	if r.Chance(1, 8) {
 		// the server listens on two listeners: Close stops both accept loops
 		sc.Listeners = 2
+	} else if !sc.CloseFirst && r.Chance(1, 8) {
+		// the listener breaks once all these connections are in (Accept reports
+		// an error that is not net.ErrClosed, Serve returns it); Close afterwards
+		// still waits for the handlers and neither panics nor blocks
+		sc.AcceptErr = true
 	}
 	c.Sched = sc
 	return c
@@ -221,6 +231,13 @@ func closeOracle(c *Case, r *Result) []Violation {
 		// (which value a Serve that starts after Close returns is not fixed)
 		return viol
 	}
+	if c.Sched != nil && c.Sched.AcceptErr {
+		// (Serve may have ended with the listener's error before Close was called)
+		if !panicked && !r.ServeReturned && !r.CloseBlocked {
+			add("serve-return", "serve-return", fmt.Sprintf("Serve returned=%v err=%q after Close", r.ServeReturned, r.ServeErr))
+		}
+		return viol
+	}
 	if !panicked && (!r.ServeReturned || r.ServeErr != "") && !r.CloseBlocked {
 		add("serve-return", "serve-return", fmt.Sprintf("Serve returned=%v err=%q after Close", r.ServeReturned, r.ServeErr))
 	}
@@ -329,7 +346,7 @@ func checkC16(x *Exec, c *Case) ([]Violation, bool) {
 func init() {
 	register(&Prop{
 		ID: "C16", Level: "exploration", QuickS: 30, ThoroughS: 480, Race: true,
-		Rule: "seeded shutdown scenarios under the seeded scheduler: 1-3 connections steered into the states idle-in-Read / half a message delivered / about to start a handler / inside a handler (statement functions with scripted yield points), plus 1-3 goroutines calling Close() once or twice; schedule points at every transport operation, callback entry and row write, at the hand-placed hooks (close.enter/decided/signalled/wait, cmd.before-admission/admitted/done) and in front of every atomic, WaitGroup, channel and mutex operation of the library (spliced by cmd/instrument, so the windows between closing.Load, closing.Store, close(closer), wg.Add and wg.Wait are all steerable); strategies: uniform, PCT (depth 1-3) and, per case, 6 hold-until plans drawn over the schedule points discovered in the first run (park a connection at p until a Close caller has passed q, the reverse, and one Close caller against another); in a fifth of the scenarios one peer stalls (from some write on it never reads again: the server's write blocks for good); oracle: event-order monitor over global sequence numbers (no Close-caller panic, no handler/parser interval straddling a Close return, no handler start after the first Close return, every Close returns once handlers may finish, Serve returns nil), process survival, and the -race shard with the HB-transparent scheduler; authenticating servers with peers that go silent at or inside the password message; scenario CloseFirst (one Close returns before Serve is called: Serve must return, no handler may run); servers with two listeners (Serve called twice); non-trivial = a handler or parser event fell between the call and the return of some Close; distinct = distinct case content hashes; distinct_interleavings = distinct (task, point) decision sequences",
+		Rule: "seeded shutdown scenarios under the seeded scheduler: 1-3 connections steered into the states idle-in-Read / half a message delivered / about to start a handler / inside a handler (statement functions with scripted yield points), plus 1-3 goroutines calling Close() once or twice; schedule points at every transport operation, callback entry and row write, at the hand-placed hooks (close.enter/decided/signalled/wait, cmd.before-admission/admitted/done) and in front of every atomic, WaitGroup, channel and mutex operation of the library (spliced by cmd/instrument, so the windows between closing.Load, closing.Store, close(closer), wg.Add and wg.Wait are all steerable); strategies: uniform, PCT (depth 1-3) and, per case, 6 hold-until plans drawn over the schedule points discovered in the first run (park a connection at p until a Close caller has passed q, the reverse, and one Close caller against another); in a fifth of the scenarios one peer stalls (from some write on it never reads again: the server's write blocks for good); oracle: event-order monitor over global sequence numbers (no Close-caller panic, no handler/parser interval straddling a Close return, no handler start after the first Close return, every Close returns once handlers may finish, Serve returns nil), process survival, and the -race shard with the HB-transparent scheduler; authenticating servers with peers that go silent at or inside the password message; scenario CloseFirst (one Close returns before Serve is called: Serve must return, no handler may run); servers with two listeners (Serve called twice); handlers that stay busy for 0.1 s - 1 h of simulated time; a listener whose Accept fails (not net.ErrClosed) before Close is called; non-trivial = a handler or parser event fell between the call and the return of some Close; distinct = distinct case content hashes; distinct_interleavings = distinct (task, point) decision sequences",
 		Components: []string{
 			"real: Serve accept loop and closer goroutine, Close, per-command admission (closing/wg/closer), command loop, handlers, buffer reader/writer",
 			"stub: listener/connections (simulated), Close callers (harness goroutines), handler programs; scheduler: harness/kernel.go decides which goroutine runs at every schedule point",
